@@ -294,11 +294,31 @@ func ProveDead(d time.Duration) DeadState {
 // censuses d apart are identical and still contain one, it returns the
 // leaked goroutines. ok=false with nil leak means "still changing after max polls".
 func WaitNoLib(d time.Duration, maxPolls int) (leak []Goro, ok bool) {
+	return WaitNoLibExcept(nil, d, maxPolls)
+}
+
+// LibGoroIDs returns the ids of the library goroutines alive now.
+func LibGoroIDs() map[int64]bool {
+	out := map[int64]bool{}
+	for _, g := range LibGoros(Census()) {
+		out[g.ID] = true
+	}
+	return out
+}
+
+// WaitNoLibExcept is WaitNoLib ignoring the goroutines whose ids are in ignore
+// (leftovers of an earlier, already reported, stuck scenario in this process).
+func WaitNoLibExcept(ignore map[int64]bool, d time.Duration, maxPolls int) (leak []Goro, ok bool) {
 	prev := ""
 	var since time.Time
 	for i := 0; i < maxPolls; i++ {
 		c := Census()
-		lib := LibGoros(c)
+		var lib []Goro
+		for _, g := range LibGoros(c) {
+			if !ignore[g.ID] {
+				lib = append(lib, g)
+			}
+		}
 		if len(lib) == 0 {
 			return nil, true
 		}
@@ -325,4 +345,14 @@ func WaitNoLib(d time.Duration, maxPolls int) (leak []Goro, ok bool) {
 		}
 	}
 	return nil, false
+}
+
+// HasFrameContaining reports whether a frame containing sub is on g's stack.
+func (g *Goro) HasFrameContaining(sub string) bool {
+	for _, f := range g.Frames {
+		if strings.Contains(f, sub) {
+			return true
+		}
+	}
+	return false
 }
